@@ -145,3 +145,53 @@ func Verif_C13_tounicode() {
 	}
 	verifrt.Assert(same, "GetMapping returns the map the file was built from")
 }
+
+// Verif_C13_parent_chain: a child CMap whose Parent (usecmap) holds entries
+// of its own.  A code mapped by the child gives the child's value -- also when
+// that value is CID 0 --, a code mapped only by the parent gives the parent's
+// value, everything else the notdef result; enumeration agrees with lookup.
+func Verif_C13_parent_chain() {
+	cs := verifCodeSpaces[verifrt.Choice("codespace", len(verifCodeSpaces))]
+	codec, err := charcode.NewCodec(cs)
+	verifrt.Assert(err == nil, "code space accepted")
+	mk := func(n int) (map[charcode.Code]cid.CID, *File) {
+		data := map[charcode.Code]cid.CID{}
+		for i := 0; i < n; i++ {
+			c, _ := verifValidCode(codec)
+			if _, dup := data[c]; dup {
+				verifrt.Assume(false)
+			}
+			data[c] = cid.CID(verifrt.Uint32("cid"))
+		}
+		f := &File{}
+		f.SetMapping(codec, data)
+		return data, f
+	}
+	pdata, parent := mk(1 + verifrt.Choice("parententries", 2))
+	cdata, child := mk(1 + verifrt.Choice("childentries", 2))
+	child.Parent = parent
+	verifrt.Cover("chain built")
+	p, pb := verifValidCode(codec)
+	got := child.LookupCID(pb)
+	if v, ok := cdata[p]; ok {
+		verifrt.Assert(got == v, "a code mapped by the child gives the child's CID")
+	} else if v, ok := pdata[p]; ok {
+		verifrt.Assert(got == v, "a code mapped only by the parent gives the parent's CID")
+	} else {
+		verifrt.Assert(got == 0, "unmapped code gives the notdef result")
+	}
+	// enumeration of the child (which includes what it inherits) agrees
+	// with lookup wherever parent and child do not overlap
+	agree := true
+	for c, v := range child.All(codec) {
+		_, inChild := cdata[c]
+		_, inParent := pdata[c]
+		if inChild && inParent {
+			continue
+		}
+		if child.LookupCID(codec.AppendCode(nil, c)) != v {
+			agree = false
+		}
+	}
+	verifrt.Assert(agree, "enumeration and lookup agree")
+}
